@@ -203,3 +203,87 @@ Theorem c14_translated_write_bg_span_is_model :
   g_svg_write_bg_span o buffer s fragment =
   (cl <- svg_bg_classes s ;; Some (buffer ++ svg_print_bg_span (svg_o_uw o) (cl, fragment))).
 Proof. exact g_svg_write_bg_span_eq. Qed.
+
+(* ---- the terms [t]: Term::new, impl Default, the builders, translated over the whole `struct Term` -------------
+   ([svg_term_full]: all seven fields; [svg_tf_term] projects to the record [t] of the theorems above,
+   [svg_tf_min_width_px] is the oracle's minimal width, [svg_tf_consts] says that font_family / padding_px hold the
+   generated constants the template is printed with) *)
+Theorem c14_translated_term_new :
+  g_svg_term_new =
+  mkSvgTermFull vga (Ansi svg_default_fg_ansi) (Ansi svg_default_bg_ansi) true svg_font_family svg_min_width svg_padding.
+Proof. exact g_svg_term_new_eq. Qed.
+
+Theorem c14_translated_term_new_projects :
+  svg_tf_term g_svg_term_new = svg_term_new /\
+  svg_tf_min_width_px g_svg_term_new = svg_min_width /\
+  svg_tf_consts g_svg_term_new.
+Proof. exact g_svg_term_new_projects. Qed.
+
+Theorem c14_translated_term_default : g_svg_term_default = g_svg_term_new.
+Proof. exact g_svg_term_default_eq. Qed.
+
+(* every builder sets its own field to the argument and leaves the other six alone *)
+Theorem c14_translated_term_builders :
+  forall t,
+  (forall p, svg_tf_fields (g_svg_term_palette t p) =
+     (p, svg_tf_fg_color t, svg_tf_bg_color t, svg_tf_background t, svg_tf_font_family t, svg_tf_min_width_px t, svg_tf_padding_px t)) /\
+  (forall c, svg_tf_fields (g_svg_term_fg_color t c) =
+     (svg_tf_palette t, c, svg_tf_bg_color t, svg_tf_background t, svg_tf_font_family t, svg_tf_min_width_px t, svg_tf_padding_px t)) /\
+  (forall c, svg_tf_fields (g_svg_term_bg_color t c) =
+     (svg_tf_palette t, svg_tf_fg_color t, c, svg_tf_background t, svg_tf_font_family t, svg_tf_min_width_px t, svg_tf_padding_px t)) /\
+  (forall y, svg_tf_fields (g_svg_term_background t y) =
+     (svg_tf_palette t, svg_tf_fg_color t, svg_tf_bg_color t, y, svg_tf_font_family t, svg_tf_min_width_px t, svg_tf_padding_px t)) /\
+  (forall n, svg_tf_fields (g_svg_term_min_width_px t n) =
+     (svg_tf_palette t, svg_tf_fg_color t, svg_tf_bg_color t, svg_tf_background t, svg_tf_font_family t, n, svg_tf_padding_px t)).
+Proof. exact translated_term_builders_frame. Qed.
+
+Theorem c14_translated_term_builders_are_setters :
+  forall t b, g_svg_build1 t b = svg_build1 t b.
+Proof. exact g_svg_build1_eq. Qed.
+
+Theorem c14_translated_term_builders_commute :
+  forall t a b, svg_builder_field a <> svg_builder_field b ->
+  g_svg_build1 (g_svg_build1 t a) b = g_svg_build1 (g_svg_build1 t b) a.
+Proof. exact translated_term_builders_commute. Qed.
+
+Theorem c14_translated_term_builders_last_wins :
+  forall t a b, svg_builder_field a = svg_builder_field b ->
+  g_svg_build1 (g_svg_build1 t a) b = g_svg_build1 t b.
+Proof. exact translated_term_builders_last_wins. Qed.
+
+(* whatever chain of builders is applied to Term::new(): the two fields without a setter keep the constants *)
+Theorem c14_translated_term_built_consts :
+  forall bs, svg_tf_consts (g_svg_build g_svg_term_new bs).
+Proof. exact translated_term_built_consts. Qed.
+
+(* the fully configured term is the [t] = mkSvgTerm p fg bg y of the theorems above (and of the correspondence
+   runs), rendered with the oracle whose minimal width is the argument of min_width_px *)
+Theorem c14_translated_term_configured :
+  forall p fg bg y n,
+  let t := g_svg_term_min_width_px (g_svg_term_background (g_svg_term_bg_color (g_svg_term_fg_color
+             (g_svg_term_palette g_svg_term_new p) (svg_to_color fg)) (svg_to_color bg)) y) n in
+  svg_tf_term t = mkSvgTerm p fg bg y /\
+  svg_tf_min_width_px t = n /\
+  svg_tf_consts t /\
+  (forall uw ceil84 input,
+     g_svg_render (svg_tf_oracle uw ceil84 t) (svg_tf_term t) input =
+     g_svg_render (mkSvgOracle uw ceil84 n) (mkSvgTerm p fg bg y) input).
+Proof. exact translated_term_configured. Qed.
+
+(* render_svg translated a second time with every `self.<field>` read from the whole struct: on a term that
+   keeps the two constants it is [g_svg_render] on the projections, so the theorems above speak about
+   `Term::new().<builders>.render_svg(input)` as translated, for every chain of builders *)
+Theorem c14_translated_render_svg_full :
+  forall o t input,
+  svg_tf_consts t -> svg_o_min_width o = svg_tf_min_width_px t ->
+  g_svg_render_full o t input = g_svg_render o (svg_tf_term t) input.
+Proof. exact translated_render_svg_full_eq. Qed.
+
+Theorem c14_translated_built_term_renders :
+  forall uw ceil84 bs input,
+  let t := g_svg_build g_svg_term_new bs in
+  g_svg_render_full (svg_tf_oracle uw ceil84 t) t input =
+  (styled <- svg_styled (svg_tf_term t) input ;;
+   d <- svg_doc (svg_tf_term t) input ;;
+   Some (svg_print (svg_width_px (svg_tf_oracle uw ceil84 t) (svg_split_lines styled)) uw d)).
+Proof. exact translated_built_term_renders. Qed.
